@@ -164,15 +164,12 @@ def array_groups():
     g('slice.inplace', ['C14'], 'h_slice', 'cstl_array_slice', 'slice in place (a == s)', defines=['-DVF_A_INPLACE'], covers=['end', 'abort'])
     g('unslice', ['C14'], 'h_unslice', 'cstl_array_unslice', 'unslice into another object: whole buffer, own owner count')
     g('unslice.inplace', ['C14'], 'h_unslice', 'cstl_array_unslice', 'unslice in place', defines=['-DVF_A_INPLACE'])
-    for case, txt in ((1, 'sole owner, no other reference'), (2, 'sole owner, other (weak) references'), (3, 'several owners')):
-        g('alloc.case%d' % case, ['C14', 'C16'], 'h_alloc', 'cstl_array_alloc',
-          're-allocating an object that is a view (any offset; %s; the three cases are exhaustive): old owner count released, fresh view from offset 0 or empty; every allocation-failure subset; unrepresentable nm*sz' % txt,
-          defines=['-DVF_A_CASE=%d' % case], timeout=800)
+    g('alloc', ['C14', 'C16'], 'h_alloc', 'cstl_array_alloc',
+      're-allocating an object that is a view (any offset, any owner counts): old owner count released, fresh view from offset 0 or empty; every allocation-failure subset; unrepresentable nm*sz',
+      timeout=800)
     g('alloc.empty', ['C14', 'C16'], 'h_alloc', 'cstl_array_alloc', 'alloc on an empty object', defines=['-DVF_A_EMPTY'])
     g('release', ['C14'], 'h_release', 'cstl_array_release', 'release of an internal buffer: NULL, nothing changes')
-    for case in (1, 2, 3):
-        g('release.external.case%d' % case, ['C14'], 'h_release', 'cstl_array_release', 'release of an external buffer: handed back only to the sole user (owner-count case %d of 3)' % case,
-          defines=['-DVF_A_EXTERNAL', '-DVF_A_CASE=%d' % case], timeout=800)
+    g('release.external', ['C14'], 'h_release', 'cstl_array_release', 'release of an external buffer: handed back only to the sole user', defines=['-DVF_A_EXTERNAL'], timeout=800)
     g('set', ['C14', 'C16'], 'h_set', 'cstl_array_set', 'set wraps an external buffer or leaves the object empty')
     names = ['alloc', 'set', 'release', 'data_const', 'at_const', 'slice', 'unslice', 'reset']
     for i, n in enumerate(names, 1):
